@@ -874,14 +874,3 @@ for _u in _c17["UNITS"]:
         UNITS.append(_u)
 META["trusted_base"] = list(META.get("trusted_base", [])) + ["units c17.backends.* are the C17 units of the same name (specs/C17/backends*.c) with their trusted base"]
 
-
-# ---- C10 units reused (added with seeded change C19-7): the pool's submission gate -- "never dropped" starts at the pool's
-# ---- create_thread / create_work, which may turn work away only while the pool has no worker threads
-_c10p = {}
-exec(compile(open("/verif/specs/C10/spec.py").read(), "/verif/specs/C10/spec.py", "exec"), _c10p)
-for _u in _c10p["UNITS"]:
-    if _u.name in ("pool.create_thread", "pool.create_work"):
-        _u.name = "c10." + _u.name
-        _u.template = "../C10/" + _u.template
-        UNITS.append(_u)
-META["trusted_base"] = list(META.get("trusted_base", [])) + ["units c10.pool.create_* are the C10 units of the same name (specs/C10/chain.c) with their trusted base"]
